@@ -200,6 +200,7 @@ class Ctx:
         cmd = [exe, suite, infile or "-", outfile] + [str(a) for a in (args or [])]
         e = go_env()
         e["VERIF_SEED"] = str(self.seed)
+        e["VERIF_REPO_DIR"] = REPO
         if env:
             e.update(env)
         try:
